@@ -54,11 +54,41 @@ func ringPts(sh Shape) []geometry.Point {
 	return pts
 }
 
+// ringPtsExact is ringPts without the 1/64 rounding (tiny holes would collapse).
+func ringPtsExact(sh Shape) []geometry.Point {
+	n := sh.N
+	if n < 3 {
+		n = 3
+	}
+	pts := make([]geometry.Point, 0, n+1)
+	for i := 0; i < n; i++ {
+		th := 2 * math.Pi * float64(i) / float64(n)
+		pts = append(pts, geometry.Point{X: sh.Cx + sh.R*math.Cos(th), Y: sh.Cy + sh.R*math.Sin(th)})
+	}
+	pts = append(pts, pts[0])
+	return pts
+}
+
 func holePts(sh Shape, k int) []geometry.Point {
 	h := sh
 	h.Jag = 0
 	h.Seed = sh.Seed + uint64(k) + 1
 	h.N = 4 + (sh.N/4)%9
+	if sh.Holes > 2 {
+		// many holes: a grid of small ones inside the inscribed square
+		side := 1
+		for side*side < sh.Holes {
+			side++
+		}
+		half := sh.R * (1 - sh.Jag) * 0.5
+		cell := 2 * half / float64(side)
+		h.N = 4
+		h.Lattice = false
+		h.R = cell * 0.3
+		h.Cx = sh.Cx - half + cell*(float64(k%side)+0.5)
+		h.Cy = sh.Cy - half + cell*(float64(k/side)+0.5)
+		return ringPtsExact(h)
+	}
 	if sh.Holes <= 1 {
 		h.R = sh.R * (1 - sh.Jag) * 0.45
 	} else {
@@ -320,6 +350,36 @@ type buildStats struct {
 // buildObject builds one object from its recipe. It never fails: a recipe the
 // library rejects (e.g. RequireValid) yields a fixed stand-in point, the same
 // in every pool built from the recipe.
+// buildDerived builds objects out of PARTS of other geometry-level objects,
+// all through the public API: the result of Move, or a struct literal that
+// reuses another polygon's rings (geometry.Poly has exported fields).
+func buildDerived(r *Recipe) geojson.Object {
+	sh := r.Shape
+	dx, dy := q64(sh.Meters), q64(float64(sh.Steps)/8)
+	switch r.Kind {
+	case "LineString":
+		base := sh
+		base.Cx, base.Cy = sh.Cx-dx, sh.Cy-dy
+		return geojson.NewLineString(geometry.NewLine(linePts(base), r.Opts.toIndexOpts()).Move(dx, dy))
+	case "Polygon":
+		if sh.N == 0 {
+			return nil
+		}
+		base := sh
+		if r.Via == "move" {
+			base.Cx, base.Cy = sh.Cx-dx, sh.Cy-dy
+		}
+		rings := polyRings(base)
+		p := geometry.NewPoly(rings[0], rings[1:], r.Opts.toIndexOpts())
+		if r.Via == "move" {
+			return geojson.NewPolygon(p.Move(dx, dy))
+		}
+		// "literal": a Poly assembled by hand from the rings of p
+		return geojson.NewPolygon(&geometry.Poly{Exterior: p.Exterior, Holes: p.Holes})
+	}
+	return nil
+}
+
 func buildObject(r *Recipe, st *buildStats) (obj geojson.Object) {
 	// A constructor that panics on this input is C05's business (input-only,
 	// same on every schedule): the object is replaced by the stand-in in every
@@ -331,7 +391,12 @@ func buildObject(r *Recipe, st *buildStats) (obj geojson.Object) {
 			obj = geojson.NewPoint(geometry.Point{X: 1, Y: 1})
 		}
 	}()
-	if r.Via == "ctor" {
+	if r.Via == "move" || r.Via == "literal" {
+		if o := buildDerived(r); o != nil {
+			return o
+		}
+	}
+	if r.Via == "ctor" || r.Via == "move" || r.Via == "literal" {
 		if o := buildCtor(r, st); o != nil {
 			return o
 		}
